@@ -6,19 +6,25 @@ CHECK = {
                      "ClusterVerif/Gen/C18.lean", "ClusterVerif/Model/C18Source.lean", "ClusterVerif/Model/C18Sync.lean",
                      "ClusterVerif/Model/C18SyncProgs.lean", "ClusterVerif/Lemmas/C18Sync.lean",
                      "ClusterVerif/Lemmas/C18SyncClusterA.lean", "ClusterVerif/Lemmas/C18SyncClusterB.lean",
-                     "ClusterVerif/Lemmas/C18SyncClusterC.lean", "ClusterVerif/Lemmas/C18SyncClusterR.lean"],
+                     "ClusterVerif/Lemmas/C18SyncClusterC.lean", "ClusterVerif/Lemmas/C18SyncClusterR.lean",
+                     "ClusterVerif/Model/C18SyncProgs2.lean", "ClusterVerif/Model/C18Inventory.lean", "ClusterVerif/Lemmas/C18SyncMoreA.lean",
+                     "ClusterVerif/Lemmas/C18SyncMoreB.lean", "ClusterVerif/Lemmas/C18SyncMoreR.lean", "ClusterVerif/Lemmas/C18SyncClusterS.lean", "ClusterVerif/Model/C18ChanOps.lean"],
     "search_seeds": {"quick": 1, "thorough": 2},
     "rule": "n = seconds of soak per structure (alerts, window, metrics store+checker, operation tracker, stateless tracker, informers, crdt batching, "
-            "tracker / crdt / Cluster life cycles: Shutdown racing the API), "
+            "tracker / crdt / Cluster life cycles: Shutdown racing the API — every other tracker / crdt generation with queues of 1 / 2 items so that the "
+            "full-queue arms are taken during and after Shutdown —, metrics Checker.Watch vs CheckAll vs a slow alert consumer vs cancellation on an alert channel of 2), "
             "one -race child process per structure, all in parallel; every returned value is checked in the harness, a sample of returned lists "
             "(alert lists, window contents, StatusAll/GetAll/LatestValid/state listings) is printed as case lines and judged by the Lean clauses "
             "and, for alerts/window, compared with the sequential model; non-trivial = non-empty list / soak with operations; distinct by case line",
     "trusted_base": ["Go race detector (happens-before, reports only races that occur in the run)",
-                     "harness/extract_c18: syntactic lockset extractor (go/ast, no type checker), its list of designated fields and mutexes",
+                     "harness/extract_c18: syntactic lockset extractor (go/ast, no type checker), its list of designated fields and mutexes; chanops.go (classification of channel sends / closes) and "
+                     "Model/C18ChanOps.lean chanSites (hand-written map from a source site to the thread that transcribes it)",
                      "fake IPFSConnector/PinTracker RPC services, StoreMonitor alerts channel, verif_export.go (VerifNewCluster, VerifAlertsHandler), verif_export_c18.go (VerifC18Prepare/Start: no-op tracer, peer manager, NewCluster's ready()+run() goroutine)",
-                     "Model/C18SyncProgs.lean: hand transcription of the shutdown protocols (tied to the source text by rfl only)"],
+                     "Model/C18SyncProgs.lean, Model/C18SyncProgs2.lean: hand transcription of the shutdown / queueing / informer / checker protocols (tied to the source text by rfl only)",
+                     "Model/C18Inventory.lean reviewedSyncFields: the review that Cluster.paMux, the two WaitGroups and crdt's sync.Map guard no field"],
     "assumptions": ["channel-, WaitGroup-, context- and go-statement ordering of the shutdown paths is covered for three hand-transcribed small-step models "
-                    "(stateless tracker, crdt consensus, Cluster life cycle), tied to the source by a text snapshot (rfl) only: that the Go functions behave like "
+                    "(stateless tracker, crdt consensus, Cluster life cycle) and, since round 8b, for the tracker in use with both workers / Recover / full queues, the informer "
+                    "protocol, metrics.Checker Watch/alert and the full crdt batching queue, all tied to the source by a text snapshot (rfl) only: that the Go functions behave like "
                     "the transcribed programs is trusted; other uses of channels are only exercised by the -race soaks",
                     "the extractor is syntactic (no type checker): it follows guarded data into same-package callees through the receiver and through "
                     "parameters that receive `x.field` (or a bound parameter) directly, and records references leaving a function (return / send / store); "
@@ -29,9 +35,13 @@ CHECK = {
                     "the step from 'no racy state is reachable' to 'every pair of conflicting accesses is happens-before ordered' is not proved",
                     "Cluster life-cycle model: the whole protocol at once (8033 states, passes when evaluated) is certified as three scenarios with two concurrent Shutdowns each; "
                     "Shutdown's leave-the-cluster branch is a free choice (superset of the real guard), its `return err` arms are not transcribed; watchPeers' loop is unrolled once "
-                    "(an iteration that finds the peer in the peerset changes no shared state); that this loses no behaviour is argued in notes/C18.md, not proved",
+                    "(an iteration that finds the peer in the peerset changes no shared state); that this loses no behaviour is argued in notes/C18.md, not proved — since round 8b the "
+                    "scenario with the loop as written (progCS, 1858 states) is kernel-certified too (cluster_shutdown_safe_loop: no panic, no racy state), only its liveness reading is weaker",
                     "a soak that sees no race, panic or stall proves nothing by itself: the universal claim rests on the lockset theorems + the regenerated table",
                     "initialisation before publication is exempt: key/value initialisers inside the composite literal of the owning struct",
+                    "round 8b models: loops are unrolled (Checker.Watch three ticks, the alert consumer two receptions), queues have capacity 1 or 2, the tracker in use is certified as two "
+                    "scenarios (Recover + one Shutdown; two Shutdowns) — the seven-thread program (4229 states) passes when evaluated, not kernel-certified; stateless.Tracker.rpcClient is written "
+                    "by SetClient without a lock: safe only because SetClient returns before the tracker is handed out (a Track before that is refuted: progT1_racy)",
                     "calls made while a component is still initialising or after it was shut down (Consensus.Shutdown before Ready, SetClient after Shutdown, a second SetClient) "
                     "are not 'in use' in the sense of the property text; the models REFUTE safety for them (witness schedules) and the soaks do not exercise them"],
 }
@@ -48,11 +58,18 @@ META = {
             "WaitGroups, cancellation and go statements: the stateless tracker and the crdt consensus component in use never send on / close a closed channel, deadlock or "
             "reach a racy state under any interleaving; the same is proved for the Cluster life cycle as repaired by /repo 87856f0 (cluster_shutdown_safe: Shutdown at any moment "
             "after NewCluster returned, racing ready()/run()/watchPeers, every branch of ready() and watchPeers, three scenarios of 2176-2752 states each, no thread able to spin), "
-            "while the protocol before that commit is REFUTED (cluster_old_protocol_deadlocks: Shutdown racing ready(), the former finding K18b = what a revert reintroduces; the "
+            "and (round 8b) for the stateless tracker in use with both workers, spt.rpcClient as a cell, Recover and queues that fill up during / after Shutdown (tracker_inuse_safe), the informers' "
+            "SetClient/GetMetric/Shutdown (informer_protocol_safe), metrics.Checker Watch/CheckAll/alert with a non-blocking send inside failedPeersMu vs a consumer that leaves on cancellation "
+            "(checker_watch_safe) and the full crdt batching queue after Shutdown (crdt_full_queue_safe), with eight misuse / wrong-edit refutations (more_wrong_edits_refuted: blocking sends deadlock "
+            "once the workers / the consumer are gone, closing the queue panics, dropped locks are racy); gen_sync_inventory_reviewed: every struct field of a sync type in the analysed packages is a "
+            "designated mutex of the lock table or individually reviewed, so a new mutex fails closed; gen_chan_ops_match_model: every channel send / close of the anchored files (go/ast: blocking, "
+            "select-with-default, close) is a known site of a transcribed program whose instruction has the same shape (default branch / plain send / close present) — a semantic tie, with "
+            "default_never_blocks proved for every program and state; cluster_shutdown_safe_loop: the Cluster scenario with watchPeers' loop as written is certified too; "
+            "while the Cluster protocol before that commit is REFUTED (cluster_old_protocol_deadlocks: Shutdown racing ready(), the former finding K18b = what a revert reintroduces; the "
             "soak clusterearly is its run-time oracle) as are three realistic wrong edits of the repaired one; the models are tied to the source by a text snapshot (rfl). "
             "Runtime oracle: -race soaks of the real structures and life cycles with structural checks, watchdog and panic capture; a clean soak proves nothing by itself.",
     "note": "Partial by nature: channel/WaitGroup ordering is proved for three transcribed models only (text-snapshot tie); cross-package aliasing is not covered; the table is "
             "produced by a syntactic extractor (trusted), now summary-based across same-package calls (calling contexts, parameter aliasing, escapes). "
             "Races are only observed, never excluded, by the soaks.",
-    "technique": "Lean 4 lockset/deadlock theorems + decide over extracted interprocedural lock facts + small-step interleaving models with exhaustive-exploration certificates + race-detector soak as implementation-side oracle",
+    "technique": "Lean 4 lockset/deadlock theorems + decide over extracted interprocedural lock facts, sync-field inventory and channel-operation shapes + small-step interleaving models with exhaustive-exploration certificates + race-detector soak as implementation-side oracle",
 }
